@@ -934,7 +934,9 @@ class Engine:
                 if v[0] == 'agg':
                     if v[2] == 'Some':
                         return [(st, v[3][0][1])]
-                    ev('panic_site', what='unwrap(None)')
+                    st.events.append({'k': 'panic', 'callee': path, 'name': name, 'what': 'unwrap(None)', 'val': v,
+                                      'msg': args[1] if len(args) > 1 else None, 'eid': st.eid(),
+                                      'fn': fn['path'], 'ln': t['ln'], 'frame': frame})
                     return [(st, PANIC)]
                 outs = []
                 st_none = st.copy()
